@@ -21,7 +21,7 @@ LEVEL_RULE = (
     "recorded finding. Distinct = distinct buffer hashes."
 )
 EXHAUSTIVE_SUBDOMAINS = []
-ASSUMPTIONS = ["pulse samples carry the amplitude plus a small share of the noise; low samples carry noise only",
+ASSUMPTIONS = ["pulse samples carry the amplitude plus a small share of the noise; low samples carry noise only", "regime R2 (noise between 0.2 x and 0.316 x the weakest pulse, i.e. 10-13.5 dB SNR) was the recorded finding eof-threshold-below-noise until fix b07124f; it is now judged as strictly as R1",
                "R1 = noise peak below the demodulator's own end-of-frame threshold (0.2 x strongest pulse of the frame)"]
 REQUIRED = ["r1_buffers", "r2_buffers", "df17", "df20", "df21", "df4", "df5", "df11", "offset_even", "offset_odd",
             "corrupted_df17_rejected", "pure_noise", "multi_frame"]
